@@ -57,7 +57,7 @@ Definition same_lists (p q : pstate) : Prop :=
 (* ---------------- setup_layer ---------------- *)
 Definition su_post (l : nat) (strict : bool) (p : pstate) (r : pstate * bool) : Prop :=
   Good (fst r) /\ (forall x, In x (ps_setup p) -> In x (ps_setup (fst r)))
-  /\ (forall x, In x (ps_setup (fst r)) -> In x (ps_setup p) \/ (if strict then x < l else x <= l))
+  /\ (forall x, In x (ps_setup (fst r)) -> In x (ps_setup p) \/ (if strict then tb (lw w) l x else (x = l \/ tb (lw w) l x)))
   /\ same_lists p (fst r).
 
 Definition fold_bases (f : nat) (bs : list nat) (acc : pstate * bool) : pstate * bool :=
@@ -75,35 +75,38 @@ Proof.
     + unfold su_post, same_lists. simpl. split; [|intros _; apply mem_In; exact Em].
       split; [exact Hg|]. split; [auto|]. split; [auto|]. auto.
     + apply mem_false in Em.
-      assert (Hfold : forall bs q, Good q -> (forall b, In b bs -> b < l) ->
+      assert (Hfold : forall bs q, Good q -> (forall b, In b bs -> In b (bases_of (lw w) l)) ->
                 su_post l true q (fold_bases f bs (q, false)) /\
                 (snd (fold_bases f bs (q, false)) = false -> forall b, In b bs -> In b (ps_setup (fst (fold_bases f bs (q, false)))))).
       { induction bs as [|b bs IHb]; intros q Hq Hb.
         - unfold fold_bases, su_post, same_lists. simpl. split; [|intros _ b []]. split; [exact Hq|]. split; [auto|]. split; [auto|]. auto.
-        - assert (Hbl : b < l) by (apply Hb; now left).
+        - assert (Hbb : In b (bases_of (lw w) l)) by (apply Hb; now left).
+          assert (Hbl : b < l) by (apply Hwf; exact Hbb).
           destruct (IH b q Hq ltac:(lia) ltac:(lia)) as [[G1 [G2 [G3 G4]]] G5].
           unfold fold_bases. cbn [fold_left]. fold (fold_bases f bs (setup_layer w f b q)).
           destruct (setup_layer w f b q) as [q1 x1] eqn:E1. simpl in G1, G2, G3, G4, G5.
+          assert (G3' : forall x, In x (ps_setup q1) -> In x (ps_setup q) \/ tb (lw w) l x).
+          { intros x Hx. destruct (G3 x Hx) as [H|[->|H]]; [now left | right; now apply tb1 | right; eapply tbS; eauto]. }
           destruct x1.
           + rewrite fold_bases_stuck. unfold su_post. simpl. split; [|discriminate].
-            split; [exact G1|]. split; [exact G2|]. split; [|exact G4].
-            intros x Hx. destruct (G3 x Hx) as [H|H]; [now left | right; lia].
+            split; [exact G1|]. split; [exact G2|]. split; [exact G3'|exact G4].
           + destruct (IHb q1 G1 (fun b' Hb' => Hb b' (or_intror Hb'))) as [[K1 [K2 [K3 K4]]] K5].
             split.
             * unfold su_post. split; [exact K1|]. split; [intros x Hx; apply K2, G2, Hx|]. split.
-              -- intros x Hx. destruct (K3 x Hx) as [H|H]; [|now right]. destruct (G3 x H) as [H'|H']; [now left | right; lia].
+              -- intros x Hx. destruct (K3 x Hx) as [H|H]; [|now right]. exact (G3' x H).
               -- unfold same_lists in *. intuition congruence.
             * intros Hs b' [<-|Hb']; [apply K2, G5; reflexivity | apply K5; assumption]. }
-      specialize (Hfold (bases_of (lw w) l) p Hg (fun b Hb => Hwf l b Hb)).
+      specialize (Hfold (bases_of (lw w) l) p Hg (fun b Hb => Hb)).
       fold (fold_bases f (bases_of (lw w) l) (p, false)).
       destruct (fold_bases f (bases_of (lw w) l) (p, false)) as [p1 exc] eqn:Efold.
       destruct Hfold as [[G1 [G2 [G3 G4]]] G5]. simpl in G1, G2, G3, G4, G5.
+      assert (G3' : forall x, In x (ps_setup p1) -> In x (ps_setup p) \/ (x = l \/ tb (lw w) l x)).
+      { intros x Hx. destruct (G3 x Hx) as [H|H]; [now left | right; now right]. }
       destruct exc.
-      * unfold su_post. simpl. split; [|discriminate]. split; [exact G1|]. split; [exact G2|]. split; [|exact G4].
-        intros x Hx. destruct (G3 x Hx) as [H|H]; [now left | right; lia].
+      * unfold su_post. simpl. split; [|discriminate]. split; [exact G1|]. split; [exact G2|]. split; [exact G3'|exact G4].
       * specialize (G5 eq_refl).
         assert (Hnl : ~ In l (ps_setup p1)).
-        { intros Hin. destruct (G3 l Hin) as [H|H]; [exact (Em H) | lia]. }
+        { intros Hin. destruct (G3 l Hin) as [H|H]; [exact (Em H) | apply tb_lt in H; [lia | exact Hwf]]. }
         set (out := match l_setup (spec_of w l) with None => HOk | Some sc => script_at sc (cnt l (ps_att_su p1)) end).
         destruct G1 as [R1 C1 N1 Rg1].
         assert (Hrep : greplay (ps_ev p1 ++ [ESetUp l out]) =
@@ -111,8 +114,7 @@ Proof.
         { rewrite greplay_app, R1. simpl. rewrite (proj2 (mem_false l (ps_setup p1)) Hnl). simpl.
           rewrite forallb_mem_all by exact G5. reflexivity. }
         destruct out eqn:Eo.
-        -- (* success *)
-          unfold su_post, same_lists. simpl. split; [|intros _; apply in_or_app; right; now left].
+        -- unfold su_post, same_lists. simpl. split; [|intros _; apply in_or_app; right; now left].
           split; [|split; [|split]].
           ++ constructor; simpl.
              ** exact Hrep.
@@ -122,18 +124,17 @@ Proof.
              ** apply NoDup_snoc; assumption.
              ** intros x Hx. apply in_app_or in Hx. destruct Hx as [Hx|[<-|[]]]; [apply Rg1; exact Hx | exact Hl].
           ++ intros x Hx. apply in_or_app. left. apply G2. exact Hx.
-          ++ intros x Hx. apply in_app_or in Hx. destruct Hx as [Hx|[<-|[]]]; [|right; lia].
-             destruct (G3 x Hx) as [H|H]; [now left | right; lia].
+          ++ intros x Hx. apply in_app_or in Hx. destruct Hx as [Hx|[<-|[]]]; [exact (G3' x Hx) | right; now left].
           ++ unfold same_lists in G4. simpl. tauto.
         -- unfold su_post, same_lists. simpl. split; [|discriminate]. split; [|split; [|split]].
            ++ constructor; simpl; auto.
            ++ exact G2.
-           ++ intros x Hx. destruct (G3 x Hx) as [H|H]; [now left | right; lia].
+           ++ exact G3'.
            ++ unfold same_lists in G4. tauto.
         -- unfold su_post, same_lists. simpl. split; [|discriminate]. split; [|split; [|split]].
            ++ constructor; simpl; auto.
            ++ exact G2.
-           ++ intros x Hx. destruct (G3 x Hx) as [H|H]; [now left | right; lia].
+           ++ exact G3'.
            ++ unfold same_lists in G4. tauto.
 Qed.
 
@@ -276,5 +277,240 @@ Proof.
   - exists ni'. split; [exact K1|]. split; [exact K2|]. split; [|split; [exact K4 | split; [exact K5 | exact K6]]].
     intros Hs x. rewrite (K3 Hs x), Ho, Hun. split; [intros [H1 H2]; split; [exact H1|]|intros [H1 H2]; split; [exact H1|tauto]].
     destruct (mem x needed) eqn:E; [apply mem_In; exact E | exfalso; apply H2; split; [exact H1 | apply mem_false; exact E]].
+Qed.
+
+(* a tear-down loop that stops does so right after a NotImplementedError *)
+Lemma td_loop_cannot_tail : forall order optional p,
+  snd (td_loop w order optional p) = true ->
+  exists pre l, ps_ev (fst (td_loop w order optional p)) = pre ++ [ETearDown l HNotImpl; ECannot l].
+Proof.
+  induction order as [|l order IH]; intros optional p H; simpl in *; [discriminate|].
+  destruct (match l_teardown (spec_of w l) with None => HOk | Some sc => script_at sc (cnt l (ps_att_td p)) end) eqn:Eo.
+  - apply IH in H. exact H.
+  - apply IH in H. exact H.
+  - destruct optional.
+    + apply IH in H. exact H.
+    + simpl. exists (ps_ev p), l. rewrite <- app_assoc. reflexivity.
+Qed.
+
+Lemma GoodN_cannot ni' p pre l : GoodN ni' p -> ps_ev p = pre ++ [ETearDown l HNotImpl; ECannot l] -> ni' = true.
+Proof.
+  intros [R _ _ _] E. rewrite E, greplay_app in R. destruct (greplay pre) as [[a b] c]. simpl in R.
+  injection R as _ R _. rewrite orb_true_r in R. congruence.
+Qed.
+
+(* ---------------- the test loop of a layer leaves the bookkeeping alone ---------------- *)
+Definition ev_quiet (l : nat) (e : ev) : Prop :=
+  match e with ESetUp _ _ | ETearDown _ _ => False | EStart t => layer_of_test t = l | _ => True end.
+
+Lemma quiet_replay l es S : Forall (ev_quiet l) es -> seteq S (stackb l) = true ->
+  fold_left gstep es (S, false, true) = (S, false, true).
+Proof.
+  induction 1 as [|e es He _ IH]; intros HS; simpl; [reflexivity|].
+  destruct e; simpl in He; try (exfalso; exact He); try (apply IH; exact HS).
+  cbn [gstep]. rewrite He, HS. simpl. apply IH. exact HS.
+Qed.
+
+Lemma p_ev_quiet l t ps : layer_of_test t = l -> Forall (ev_quiet l) (flat_map (p_ev w l t) ps).
+Proof.
+  intros Ht. induction ps as [|p ps IH]; simpl; [constructor|]. apply Forall_app. split; [|exact IH].
+  destruct p; simpl.
+  - apply Forall_app. split; [unfold hooks_up; apply Forall_forall; intros e He; apply in_map_iff in He; destruct He as [x [<- _]]; exact I|].
+    repeat constructor. exact Ht.
+  - apply Forall_app. split; [unfold hooks_up; apply Forall_forall; intros e He; apply in_map_iff in He; destruct He as [x [<- _]]; exact I|].
+    repeat constructor. exact Ht.
+  - repeat constructor.
+  - repeat constructor.
+  - apply Forall_app. split; [unfold hooks_down; apply Forall_forall; intros e He; apply in_map_iff in He; destruct He as [x [<- _]]; exact I|].
+    repeat constructor.
+Qed.
+
+Lemma run_seq_quiet l : forall ts s, (forall t b, In (t, b) ts -> layer_of_test t = l) ->
+  exists ext, rs_ev (run_seq w o l ts s) = rs_ev s ++ ext /\ Forall (ev_quiet l) ext.
+Proof.
+  induction ts as [|[t b] ts IH]; intros s Hts; simpl.
+  - exists []. rewrite app_nil_r. split; [reflexivity | constructor].
+  - destruct (rs_stop s); [exists []; rewrite app_nil_r; split; [reflexivity | constructor]|].
+    destruct (IH (run_test w o l t b s) (fun t' b' H => Hts t' b' (or_intror H))) as [ext [E Q]].
+    unfold run_test in *. destruct (fold_effect w o l t (proto b) s) as [_ [_ [_ [_ [_ [_ Hev]]]]]].
+    rewrite Hev in E. exists (flat_map (p_ev w l t) (proto b) ++ ext). split; [rewrite E, <- app_assoc; reflexivity|].
+    apply Forall_app. split; [apply p_ev_quiet; apply (Hts t b); now left | exact Q].
+Qed.
+
+Lemma tests_of_layer l t b : In (t, b) (tests_of w l) -> layer_of_test t = l.
+Proof. intros H. apply tests_of_spec in H. destruct H as [H1 H2]. unfold layer_of_test. now rewrite H1. Qed.
+
+Lemma repeat_loop_good : forall k l p, Good p -> seteq (ps_setup p) (stackb l) = true ->
+  Good (repeat_loop w o k l p) /\ ps_setup (repeat_loop w o k l p) = ps_setup p.
+Proof.
+  induction k as [|k IH]; intros l p Hg HS; simpl; [auto|].
+  set (rs := run_seq w o l (tests_of w l) rs_init).
+  destruct (run_seq_quiet l (tests_of w l) rs_init (tests_of_layer l)) as [ext [E Q]]. simpl in E. fold rs in E.
+  set (p1 := {| ps_setup := ps_setup p; ps_att_su := ps_att_su p; ps_att_td := ps_att_td p; ps_ran := rs_run rs;
+                ps_fail := ps_fail p ++ rs_fail rs ++ rs_us rs; ps_err := ps_err p ++ rs_err rs; ps_skip := ps_skip p + rs_skip rs;
+                ps_ev := ps_ev p ++ rs_ev rs ++ [ESummary l (rs_run rs) (length (rs_fail rs) + length (rs_us rs))
+                                                   (length (rs_err rs) + o_import_errors o) (rs_skip rs)] |}).
+  assert (Hg1 : Good p1).
+  { destruct Hg as [R C N Rg]. constructor; simpl; auto.
+    rewrite greplay_app, R, fold_left_app, E. rewrite (quiet_replay l ext (ps_setup p) Q HS). reflexivity. }
+  destruct (rs_stop rs); [split; [exact Hg1 | reflexivity]|].
+  destruct (IH l p1 Hg1 HS) as [H1 H2]. split; [exact H1 | exact H2].
+Qed.
+
+Lemma closed_tb S a x : closed S -> In a S -> tb (lw w) a x -> In x S.
+Proof. intros HC Ha H. induction H as [a b Hb|a m b Hm _ IH]; [eapply HC; eauto | apply IH; eapply HC; eauto]. Qed.
+
+Lemma seteq_of_incl (a b : list nat) : (forall x, In x a -> In x b) -> (forall x, In x b -> In x a) -> seteq a b = true.
+Proof.
+  intros H1 H2. unfold seteq, subset. apply andb_true_iff. split; apply forallb_forall; intros x Hx; apply mem_In; auto.
+Qed.
+
+(* Good does not depend on the counters and lists *)
+Lemma GoodN_ext ni p q : GoodN ni p -> ps_setup q = ps_setup p -> ps_ev q = ps_ev p -> GoodN ni q.
+Proof. intros [R C N Rg] E1 E2. constructor; rewrite ?E1, ?E2; auto. Qed.
+
+Lemma run_layer_good l p : Good p -> l < n ->
+  let r := run_layer w o l p in
+  (snd r = false -> Good (fst r)) /\ (snd r = true -> GoodN true (fst r)).
+Proof.
+  intros Hg Hl. unfold run_layer.
+  destruct (tdu_good (gather_layers (lw w) l) false p false Hg (stack_is_stack_closed l Hl)) as [ni' [K1 [K2 [K3 [K4 [K5 K6]]]]]].
+  destruct (tear_down_unneeded w (gather_layers (lw w) l) false p) as [p1 cannot] eqn:Etd. simpl in K1, K2, K3, K4, K5.
+  destruct cannot.
+  - simpl. split; [discriminate|]. intros _.
+    pose proof (td_loop_cannot_tail (rev (order_by_bases (lw w) (filter (fun x => negb (mem x (gather_layers (lw w) l))) (ps_setup p)))) false p) as Ht.
+    unfold tear_down_unneeded in Etd. rewrite Etd in Ht. destruct (Ht eq_refl) as [pre [l0 E]]. simpl in E.
+    rewrite (GoodN_cannot ni' p1 pre l0 K1 E) in K1. exact K1.
+  - rewrite (K4 eq_refl eq_refl) in K1.
+    destruct (setup_layer_good (S (nlayers (lw w))) l p1 K1 Hl ltac:(unfold n in Hl; lia)) as [[G1 [G2 [G3 G4]]] G5].
+    destruct (setup_layer w (S (nlayers (lw w))) l p1) as [p2 exc] eqn:Esu. simpl in G1, G2, G3, G5.
+    destruct exc; simpl.
+    + split; [intros _|discriminate]. eapply GoodN_ext; [exact G1 | reflexivity | reflexivity].
+    + split; [intros _|discriminate]. specialize (G5 eq_refl).
+      set (p3 := {| ps_setup := ps_setup p2; ps_att_su := ps_att_su p2; ps_att_td := ps_att_td p2; ps_ran := 0;
+                    ps_fail := ps_fail p2; ps_err := ps_err p2; ps_skip := ps_skip p2; ps_ev := ps_ev p2 |}).
+      assert (Hg3 : Good p3) by (eapply GoodN_ext; [exact G1 | reflexivity | reflexivity]).
+      apply (repeat_loop_good (reps o) l p3 Hg3).
+      apply seteq_of_incl.
+      * intros x Hx. simpl in Hx. unfold stackb. destruct (G3 x Hx) as [H|H].
+        -- apply (proj1 (K3 eq_refl x)) in H. destruct H as [_ H]. exact H.
+        -- apply (gather_layers_spec (lw w) Hwf l x Hl). exact H.
+      * intros x Hx. simpl. unfold stackb in Hx. apply (gather_layers_spec (lw w) Hwf l x Hl) in Hx.
+        destruct Hx as [->|Hx]; [exact G5 | eapply closed_tb; [apply (g_closed _ _ G1) | exact G5 | exact Hx]].
+Qed.
+
+(* ---------------- a whole process ---------------- *)
+Lemma final_teardown ni p : GoodN ni p ->
+  c01_trace_ok (ps_ev (fst (tear_down_unneeded w [] true p))) = true.
+Proof.
+  intros Hg.
+  destruct (tdu_good [] true p ni Hg) as [ni' [K1 [K2 [K3 [K4 [K5 K6]]]]]]; [intros x y []|].
+  destruct (tear_down_unneeded w [] true p) as [q c] eqn:E. simpl in *.
+  assert (Hc : c = false) by (destruct c; [specialize (K5 eq_refl); discriminate | reflexivity]). subst c.
+  unfold c01_trace_ok. rewrite (g_replay _ _ K1).
+  destruct (ps_setup q) as [|x r] eqn:Es; [reflexivity|].
+  exfalso. destruct (proj1 (K3 eq_refl x) (or_introl eq_refl)) as [_ []].
+Qed.
+
+Hypothesis Htests : forall t, In t (tests w) -> t_layer t < n.
+
+Lemma parent_loop_good : forall ls p ran k, (forall l, In l ls -> l < n) -> Good p ->
+  let '(p', _, _, _, _) := parent_loop w o ls p ran k in exists ni, GoodN ni p'.
+Proof.
+  induction ls as [|l ls IH]; intros p ran k Hls Hg; simpl; [exists false; exact Hg|].
+  destruct (run_layer_good l p Hg (Hls l (or_introl eq_refl))) as [H1 H2].
+  destruct (run_layer w o l p) as [p1 cannot]. simpl in H1, H2.
+  destruct cannot; [exists true; apply H2; reflexivity|].
+  specialize (H1 eq_refl).
+  destruct (o_x o && match ps_fail p1, ps_err p1 with [], [] => false | _, _ => true end); [exists false; exact H1|].
+  apply IH; [intros l' Hl'; apply Hls; now right | exact H1].
+Qed.
+
+Lemma ordered_in_range l : In l (ordered_layers w) -> l < n.
+Proof.
+  unfold ordered_layers. intros H. apply obb_in in H. unfold layers_with_tests in H.
+  assert (Hgen : forall ts acc, (forall t, In t ts -> t_layer t < n) -> (forall x, In x acc -> x < n) ->
+            forall x, In x (fold_left (fun acc t => if mem (t_layer t) acc then acc else acc ++ [t_layer t]) ts acc) -> x < n).
+  { induction ts as [|t ts IHt]; simpl; intros acc Ht Ha x Hx; [auto|].
+    eapply IHt; [intros t' Ht'; apply Ht; now right | | exact Hx].
+    destruct (mem (t_layer t) acc); [exact Ha|]. intros y Hy. apply in_app_or in Hy. destruct Hy as [Hy|[<-|[]]]; [auto | apply Ht; now left]. }
+  apply (Hgen (tests w) [] Htests (fun x (Hx : In x []) => match Hx with end) l H).
+Qed.
+
+Lemma init_good : Good ps_init.
+Proof. constructor; simpl; [reflexivity | intros x b [] | constructor | intros x []]. Qed.
+
+(* C01 for the parent process of every run *)
+Theorem c01_parent : c01_trace_ok (r_parent (run w o)) = true.
+Proof.
+  unfold run.
+  set (A := if 1 <? o_procs o then _ else _).
+  assert (HA : let '(p1, _, _, _, _) := A in exists ni, GoodN ni p1).
+  { unfold A. destruct (1 <? o_procs o).
+    - exists false. destruct init_good as [R C N Rg]. constructor; simpl; auto.
+      unfold pemit. simpl. induction (reps o) as [|k IHk]; simpl; [reflexivity|]. exact IHk.
+    - apply parent_loop_good; [apply ordered_in_range | exact init_good]. }
+  destruct A as [[[[p1 ran1] rest] resume] n1].
+  destruct HA as [ni Hg1].
+  set (B := if resume then _ else _). destruct B as [[[cs ran2] f2] e2].
+  set (p2 := {| ps_setup := ps_setup p1; ps_att_su := ps_att_su p1; ps_att_td := ps_att_td p1; ps_ran := 0;
+                ps_fail := []; ps_err := []; ps_skip := ps_skip p1; ps_ev := ps_ev p1 |}).
+  assert (Hg2 : GoodN ni p2) by (eapply GoodN_ext; [exact Hg1 | reflexivity | reflexivity]).
+  pose proof (final_teardown ni p2 Hg2) as Hf.
+  destruct (tear_down_unneeded w [] true p2) as [p3 c3]. simpl in *. exact Hf.
+Qed.
+
+(* … and for every layer subprocess *)
+Theorem c01_child l : l < n -> c01_trace_ok (c_ev (child_run w o l)) = true.
+Proof.
+  intros Hl. unfold child_run.
+  destruct (run_layer_good l ps_init init_good Hl) as [H1 H2].
+  destruct (run_layer w o l ps_init) as [p1 cannot]. simpl in H1, H2.
+  assert (Hg : exists ni, GoodN ni p1) by (destruct cannot; [exists true; apply H2; reflexivity | exists false; apply H1; reflexivity]).
+  destruct Hg as [ni Hg]. pose proof (final_teardown ni p1 Hg) as Hf.
+  destruct (tear_down_unneeded w [] true p1) as [p2 c2]. simpl in *. exact Hf.
+Qed.
+
+Lemma resume_seq_children : forall ls ran f e c,
+  In c (fst (fst (fst (resume_seq w o ls ran f e)))) -> exists l, In l ls /\ c = child_run w o l.
+Proof.
+  induction ls as [|l ls IH]; intros ran f e c H; simpl in H; [destruct H|].
+  destruct (o_x o && match f, e with [], [] => false | _, _ => true end); [destruct H|].
+  destruct (resume_seq w o ls (ran + c_ran (child_run w o l)) (f ++ c_fail (child_run w o l)) (e ++ c_err (child_run w o l))) as [[[cs r'] f'] e'] eqn:E.
+  simpl in H. destruct H as [<-|H]; [exists l; split; [now left | reflexivity]|].
+  specialize (IH (ran + c_ran (child_run w o l)) (f ++ c_fail (child_run w o l)) (e ++ c_err (child_run w o l)) c).
+  rewrite E in IH. simpl in IH. destruct (IH H) as [l' [H1 H2]]. exists l'. split; [now right | exact H2].
+Qed.
+
+Lemma parent_loop_rest : forall ls p ran k l,
+  In l (snd (fst (fst (parent_loop w o ls p ran k)))) -> In l ls.
+Proof.
+  induction ls as [|x ls IH]; intros p ran k l H; simpl in H; [destruct H|].
+  destruct (run_layer w o x p) as [p1 cannot]. destruct cannot; [simpl in H; exact H|].
+  destruct (o_x o && match ps_fail p1, ps_err p1 with [], [] => false | _, _ => true end); [simpl in H; now right|].
+  right. eapply IH. exact H.
+Qed.
+
+Theorem c01_children : forall c, In c (r_children (run w o)) -> c01_trace_ok (c_ev c) = true.
+Proof.
+  intros c Hc.
+  assert (Hl : exists l, In l (ordered_layers w) /\ c = child_run w o l).
+  { unfold run in Hc.
+    destruct (1 <? o_procs o) eqn:Ep.
+    - cbn zeta in Hc. cbv beta iota in Hc.
+      destruct (resume_seq w o (ordered_layers w) 0 _ _) as [[[cs r2] f2] e2] eqn:E.
+      destruct (tear_down_unneeded w [] true _) as [p3 c3]. simpl in Hc.
+      pose proof (resume_seq_children (ordered_layers w) 0 (ps_fail (pemit ps_init (repeat (ESummary (nlayers (lw w)) 0 0 (o_import_errors o) 0) (reps o))))
+                    (ps_err (pemit ps_init (repeat (ESummary (nlayers (lw w)) 0 0 (o_import_errors o) 0) (reps o)))) c) as H.
+      simpl in H. simpl in E. rewrite E in H. apply H. exact Hc.
+    - destruct (parent_loop w o (ordered_layers w) ps_init 0 0) as [[[[p1 ran1] rest] resume] n1] eqn:Epl.
+      destruct resume.
+      + destruct (resume_seq w o rest ran1 (ps_fail p1) (ps_err p1)) as [[[cs r2] f2] e2] eqn:E.
+        destruct (tear_down_unneeded w [] true _) as [p3 c3]. simpl in Hc.
+        pose proof (resume_seq_children rest ran1 (ps_fail p1) (ps_err p1) c) as H. rewrite E in H. simpl in H.
+        destruct (H Hc) as [l [H1 H2]]. exists l. split; [|exact H2].
+        pose proof (parent_loop_rest (ordered_layers w) ps_init 0 0 l) as Hr. rewrite Epl in Hr. apply Hr. exact H1.
+      + destruct (tear_down_unneeded w [] true _) as [p3 c3]. simpl in Hc. destruct Hc. }
+  destruct Hl as [l [H1 ->]]. apply c01_child. apply ordered_in_range. exact H1.
 Qed.
 End I.
